@@ -175,7 +175,12 @@ def handleEntries (j : Json) : Except String Json := do
             groups := ← fromJson? (← dj.getObjVal? "groups"), isPrivate := ← dj.getObjValAs? Bool "isPrivate" } : Listing.Decl))
   let as : List Listing.AliasOf ← fromJson? (← j.getObjVal? "aliases")
   let mg : List String := (j.getObjVal? "moduleGroups" >>= fromJson?).toOption.getD []
-  return Json.mkObj [("entries", toJson (ds.map (fun d => Listing.entriesOf as d))), ("groups", toJson (Listing.publicGroups ds mg))]
+  let placedJ : Array Json := ((j.getObjVal? "placed") >>= (·.getArr?)).toOption.getD #[]
+  let placed ← placedJ.toList.mapM (fun pj => do
+    pure ({ name := ← pj.getObjValAs? String "name", imports := ← fromJson? (← pj.getObjVal? "imports"),
+            offset := ← pj.getObjValAs? Nat "offset" } : Listing.Placed))
+  return Json.mkObj [("entries", toJson (ds.map (fun d => Listing.entriesOf as d))), ("groups", toJson (Listing.publicGroups ds mg)),
+    ("unsorted", toJson ((Listing.unsortedOrder placed).map Listing.Placed.name))]
 
 /-- {"op":"percent","s":S} → encode_uri_component(S) -/
 def handlePercent (j : Json) : Except String Json := do
